@@ -254,6 +254,12 @@ def tracer_data():
     o = Tracer()
     data = {"o": o, "d": {"o": Tracer(), "_k": "dictitem"}, "lst": [Tracer()], "f": tracer_function(), "T": Tracer,
             "g": g, "bm": o.meth}
+    # bound str.format / format_map / Markup.format methods supplied by the HOST (not obtained by the
+    # template through attribute access): as direct values and inside containers
+    from markupsafe import Markup
+    hf = "{0._secret}|{0.pub}".format
+    data.update({"hf": hf, "hd": {"f": hf}, "hl": [hf], "hm": "{x._secret}|{x.pub}".format_map,
+                 "hmk": Markup("{0._secret}|{0.pub}").format, "ht": (hf,)})
     return data, g.close
 
 
@@ -304,4 +310,32 @@ ACCESS = {
     "macro": "{%% macro get(x) %%}{{ x.%(n)s }}{%% endmacro %%}{{ get(%(b)s) }}",
     "test-defined": "{{ (%(b)s).%(n)s is defined }}",
     "in-default": "{{ (%(b)s).%(n)s|default('DFLT') }}",
+}
+
+
+# calls of host-supplied bound format methods (the tracer o is the format argument)
+HOST_FORMAT = {
+    "direct": "{{ hf(o) }}",
+    "dict-attr": "{{ hd.f(o) }}",
+    "dict-item": "{{ hd['f'](o) }}",
+    "list-item": "{{ hl[0](o) }}",
+    "tuple-item": "{{ ht[0](o) }}",
+    "first-filter": "{{ (hl|first)(o) }}",
+    "last-filter": "{{ (hl|last)(o) }}",
+    "dict-get": "{{ hd.get('f')(o) }}",
+    "dict-values": "{{ (hd.values()|list)[0](o) }}",
+    "set-alias": "{% set g = hf %}{{ g(o) }}",
+    "with-alias": "{% with g = hd.f %}{{ g(o) }}{% endwith %}",
+    "loop-var": "{% for g in hl %}{{ g(o) }}{% endfor %}",
+    "macro-arg": "{% macro m(g) %}{{ g(o) }}{% endmacro %}{{ m(hf) }}",
+    "call-block": "{% call hf(o) %}x{% endcall %}",
+    "star-args": "{{ hf(*[o]) }}",
+    "format-map": "{{ hm({'x': o}) }}",
+    "format-map-dstar": "{{ '{x._secret}|{x.pub}'.format(**{'x': o}) }}",
+    "markup-format": "{{ hmk(o) }}",
+    "default-filter": "{{ (missing_zz|default(hf))(o) }}",
+    "cond": "{{ (hf if true else none)(o) }}",
+    "namespace": "{% set ns = namespace(g=hf) %}{{ ns.g(o) }}",
+    "map-attribute": "{{ ([hd]|map(attribute='f')|first)(o) }}",
+    "public-control": "{{ hf(d.o) }}",
 }
